@@ -12,7 +12,7 @@ import (
 
 func init() {
 	register("C14", propMeta{
-		Explanation:  "(R1) every context-taking method of btree.BtreeInterface is declared on the transaction wrapper (not merely promoted from the embedded interface) and its delegate call is reachable only when transaction.HasBegun() is true, and, for the methods whose Btree implementation reaches the item-action tracker's or node repository's mutators in the call graph (the mutating set is derived, not listed), only when GetMode() == ForWriting; (R2) the lifecycle state machine of common.Transaction is extracted by abstract interpretation of Begin/Phase1Commit/Phase2Commit/Rollback over all 24 pre-states (phaseDone x committed x mode) and checked against the lifecycle table: Begin only from the initial state, commits only between Begin and the end, a finished transaction reaches no commit/rollback internals and keeps its state, every exit of Phase2Commit/Rollback that did work leaves the transaction finished, committed is set only on a nil return, writer internals only in ForWriting mode, phaseDone monotone; (R3) only those four methods write phaseDone/committed; (R4) the pre-commit storage mutation in NewBtree (StoreRepository.Add) is guarded by a writer-mode check.",
+		Explanation:  "(R1) every context-taking method of btree.BtreeInterface is declared on the transaction wrapper (not merely promoted from the embedded interface) and its delegate call is reachable only when transaction.HasBegun() is true, and, for the methods whose Btree implementation reaches the item-action tracker's or node repository's mutators in the call graph (the mutating set is derived, not listed), only when GetMode() == ForWriting; (R2) the lifecycle state machine of common.Transaction is extracted by abstract interpretation of Begin/Phase1Commit/Phase2Commit/Rollback over all 24 pre-states (phaseDone x committed x mode) and checked against the lifecycle table: Begin only from the initial state, commits only between Begin and the end, a finished transaction reaches no commit/rollback internals and keeps its state, every exit of Phase2Commit/Rollback that did work leaves the transaction finished, committed is set only on a nil return, writer internals only in ForWriting mode, phaseDone monotone; (R3) only those four methods write phaseDone/committed; (R4) the pre-commit storage mutation in NewBtree (StoreRepository.Add) is guarded by a writer-mode check; (R5) nothing can fail after the commit point, so a committed transaction is never handed to rollback (shared with C01.R3).",
 		DoesNotCover: "Operations of the SinglePhaseTransaction wrapper other than what C16 covers, Close, and the behaviour of store operations themselves.",
 		Technique:    "static analysis: wrapper exhaustiveness over the interface's method set, CFG guard dominance, call-graph derivation of the mutating set, and abstract interpretation of the lifecycle methods over a finite state domain (exhaustive: 96 pre-state/method pairs)",
 	}, runC14)
@@ -508,6 +508,9 @@ func runC14(c *Ctx) {
 		offs := g.ReachableWithout(cut, calls(kSRAdd))
 		c.Offences(g, offs, r4, "NewBtree: StoreRepository.Add only in ForWriting mode", f.Decl.Pos(), "store creation is behind a writer-mode check", "a read-only or no-check transaction that names a missing store creates it on disk (data changed by a non-writer)")
 	}
+	r5 := c.Rule("R5", "a committed transaction cannot be rolled back: after the commit point phase2Commit cannot return an error (which would make Phase2Commit run the rollback against committed data), and Phase2Commit sets committed only on the nil path (shared with C01.R3)", 3)
+	ruleNothingFailsAfterCommitPoint(c, r5)
+
 }
 
 func dedup(xs []string) []string {
